@@ -381,8 +381,10 @@ def r_stop_onlyexit(run, F, rule_stop="R-STOP", rule_exit="R-ONLYEXIT"):
             if eb is None:
                 run.anchor_lost(rule_stop, "%s::%s" % (pty, entry))
                 continue
-            for p in paths_of(eb):
-                if p.kind == "try":
+            # one entry point written in terms of the other (parse through parse_parts) is judged with that one inlined
+            sib = {"%s::<R>::%s" % (pty, o): F.body("%s::<R>::%s" % (pty, o)) for o in ("parse", "parse_parts") if o != entry and F.body("%s::<R>::%s" % (pty, o)) is not None}
+            for p in paths_of(eb, inline=sib):
+                if p.kind == "try" or (p.ret[0] == "ctor" and p.ret[1].endswith("::Err") and p.ret[2] and is_call(p.ret[2][0], "<from-err>")):
                     continue
                 r = p.ret
                 hdr = None
@@ -680,6 +682,8 @@ def r_reject(run, F, rule="R-REJECT"):
                 r = v
             if r[0] == "ctor" and r[1].endswith("::Err"):
                 e0 = r[2][0] if r[2] else None
+                if is_call(e0, "<from-err>"):
+                    continue        # an inlined helper's `?` exit: a callee's error handed on
                 if isinstance(e0, tuple) and e0[0] == "proj" and str(e0[2]).startswith("Err.") and any(c[0] == "match" and (c[1] is e0[1] or c[1] == e0[1]) for c in p.conds):
                     continue        # `Err(e) => Err(e)`: the callee's own error handed on, not a new rejection
                 # the deciding test, with integer literals erased: `len != 4`, `len != 8`, .. reached through a per-syntax table are one test
